@@ -342,7 +342,7 @@ def run(ctx):
         ctx.guard("index", "unknown", check_unknown, ctx, h.add_node(ops.Custom("u")))
         ctx.guard("index", "unknown", check_unknown, ctx, Node(3))
         ctx.guard("index", "ports", check_ports, ctx)
-    for i in ctx.mine(ctx.n(3000, 60000)):
+    for i in ctx.mine(ctx.n(3000, 400000)):
         r = ctx.rng("handle", i)
         sc = gen_scenario(r)
         nt = ctx.guard("handle", sc, run_scenario, ctx, sc)
